@@ -39,6 +39,10 @@ def main():
         rc0, o0 = sh('cargo test --offline --test zz_demo_mutant 2>&1 | tail -15', cwd=wt, env=env)
         out['demo_without_patch'] = 'passes' if ('test result: ok' in o0 and 'FAILED' not in o0) else 'DOES NOT PASS: ' + o0[-600:]
         rc, o = sh(['git', 'apply', os.path.join(mdir, 'patch.diff')], cwd=wt)
+        if rc != 0:
+            # the patch was written against an earlier HEAD: retry with context fuzz
+            rc, o = sh('patch -p1 --fuzz=3 --no-backup-if-mismatch < %s' % os.path.join(mdir, 'patch.diff'), cwd=wt)
+            out['patch_applied_with_fuzz'] = rc == 0
         out['patch_applies'] = rc == 0
         rc1, o1 = sh('cargo test --offline --test zz_demo_mutant 2>&1 | tail -25', cwd=wt, env=env)
         out['demo_with_patch'] = 'fails' if ('FAILED' in o1 or 'panicked' in o1 or 'error' in o1) and 'test result: ok' not in o1 else 'DOES NOT FAIL'
